@@ -21,6 +21,8 @@ import (
 	"regexp"
 	"sort"
 	"strings"
+	"sync"
+	"syscall"
 	"testing"
 	"time"
 
@@ -103,7 +105,18 @@ func goMajMin(v string) string {
 	return "go" + m[1] + "." + m[2]
 }
 
+// lowFileLimit makes open files a scarce resource, as they are on a loaded
+// server: a worker that keeps every report of a day open cannot merge a busy day.
+var lowFileLimit sync.Once
+
 func scenarioC13(c *hlib.RunCtx) *hlib.Violation {
+	lowFileLimit.Do(func() {
+		var lim syscall.Rlimit
+		if syscall.Getrlimit(syscall.RLIMIT_NOFILE, &lim) == nil && lim.Cur > 40 {
+			lim.Cur = 40
+			syscall.Setrlimit(syscall.RLIMIT_NOFILE, &lim)
+		}
+	})
 	t := c.Tape
 	s := simrt.New(t, c.Dir, time.Date(2024, 1, 1, 0, 0, 0, 0, time.UTC))
 	s.KeepTrace = true
@@ -188,7 +201,7 @@ func scenarioC13(c *hlib.RunCtx) *hlib.Violation {
 		date := refcal.Date(day0 + d)
 		n := t.Draw(7)
 		if t.Bool(1, 8) {
-			n = 10 + t.Draw(30)
+			n = 10 + t.Draw(45) // more reports in a day than the process may hold open files (see lowFileLimit)
 		}
 		used := map[float64]bool{}
 		for i := 0; i < n; i++ {
